@@ -45,6 +45,9 @@ def configs(tier):
     # follows the equalities on the symbolic alpha, beta)
     for n in range(0, 4 if q else 7):
         out.append({'name': 'jacobi-recurrence-n%d' % n, 'family': 'jacobi_rec', 'n': n})
+    # the weight function under which the Jacobi family is orthogonal, at integer and half-integer (alpha, beta) with alpha != beta
+    for (al, be) in [('2', '1'), ('0', '3'), ('1/2', '-1/2'), ('-1/2', '1/2'), ('3/2', '1')]:
+        out.append({'name': 'jacobi-weight-%s-%s' % (al, be), 'family': 'jacobi_weight', 'alpha': al, 'beta': be})
     zn = 6 if q else 10
     for n in range(0, zn + 1):
         for m in range(-n, n + 1, 2):
@@ -70,6 +73,8 @@ def params(cfg):
     fam = cfg['family']
     if fam in ('jacobi', 'jacobi_rec'):
         return [('alpha', {'gt': -1}), ('beta', {'gt': -1})]
+    if fam == 'jacobi_weight':
+        return [('xw', {'gt': -1, 'lt': 1})]
     if fam in ('cheby1', 'cheby2', 'cheby3', 'cheby4'):
         return [('theta', {'gt': 0, 'lt': 3})]
     if fam == 'laguerre':
@@ -153,6 +158,18 @@ def run(cfg, H):
                 family_compare(H, fam, nn, out, env, '%s_seq[n=%d]' % (fam, nn))
         else:
             family_compare(H, fam, n, family_call(P, fam, n, env), env, fam)
+    elif fam == 'jacobi_weight':
+        from fractions import Fraction as _F
+        al, be = _F(cfg['alpha']), _F(cfg['beta'])
+        x = H.param('xw')
+        jac = H.mod('prysm.polynomials.jacobi')
+        got = jac.weight(H.frac(al.numerator, al.denominator), H.frac(be.numerator, be.denominator), H.asarray([x]))
+
+        def hpow(base, e):      # base ** e for e a multiple of 1/2, base > 0
+            r = H.sqrt(base) if e.denominator == 2 else 1
+            k_ = int(e - _F(1, 2)) if e.denominator == 2 else int(e)
+            return r * base ** k_ if k_ >= 0 else r / base ** (-k_)
+        H.eq('weight(alpha, beta, x) == (1 - x)^alpha (1 + x)^beta', got[0], hpow(1 - x, al) * hpow(1 + x, be))
     elif fam == 'jacobi_rec':
         a, b = H.param('alpha'), H.param('beta')
         x = H.rarray('x', (1,))
